@@ -218,7 +218,7 @@ class Ctx:
         if not os.path.exists(trace) or os.path.getsize(trace) == 0:
             raise Broken("empty trace " + trace)
         lines = open(trace).read().splitlines()
-        nhist = sum(1 for x in lines if x.startswith('{"e":"Reset"')) or 1
+        nhist = sum(1 for x in lines if x.startswith('{"e":"Reset"') or '"e":"CInit"' in x[:4000] and x.startswith('{"colls"')) or 1
         r = self.tlc(module, cfg, env={"TRACE": trace}, workers=1, timeout=timeout)
         if r["rejected"] is not None or not r["ok"]:
             at = r["rejected"]
